@@ -12,7 +12,7 @@ The state is the `coap_lg_crcv_t` matched by token (`none` = no lg_crcv on the s
 block response and if blocks can be set up" part with `sent != NULL`, COAP_RECURSE_OK).  Same case splits, same
 order of checks as the C.  `block.num * chunk`, `offset + length`, `(size2 + chunk - 1) / chunk` are `size_t`
 (NUM ≤ 0xFFFFF, SZX ≤ 6: no wrap); `((block.num + 1) << 4) | …` is `unsigned` with NUM + 1 ≤ 0xFFFFF: a response with NUM 0xFFFFF
-and M set is refused before anything is stored (fix 1edd277; theorem C09.block2_next_request_20bit).
+and M set is refused before anything is stored (fix 70f6ff3; theorem C09.block2_next_request_20bit).
 `lg_crcv->etag[0 .. etag_length)` is the byte list `etag`; it keeps its old value when a (re-)initialising block has
 no ETag option (only `etag_set` is cleared), exactly as in the C.
 -/
@@ -113,7 +113,7 @@ def crcvBlock (single : Bool) (cap : Nat) (junk : UInt8) (lg : Crcv) (num m szx 
   let chunk := 2 ^ (szx + 4)
   let data := if r.payload.length > chunk then r.payload.take chunk else r.payload    -- "Oversized packet - reduced"
   if m ≠ 0 ∧ data.length ≠ chunk then (none, .err402)                                -- "Undersized packet", expire_lg_crcv
-  else if m ≠ 0 ∧ 0xFFFFF ≤ num then (none, .err402)     -- "More set on the last block number" (fix 1edd277), expire_lg_crcv
+  else if m ≠ 0 ∧ 0xFFFFF ≤ num then (none, .err402)     -- "More set on the last block number" (fix 70f6ff3), expire_lg_crcv
   else
     let offset := num * chunk
     let size2 := crcvSize2 r.size2 m (offset + data.length)
